@@ -66,10 +66,10 @@ TEXT = {
             "of the last place; plus-then-minus and times-then-divided_by are the identity; a string receiver that spells a number "
             "behaves as that number and any other string (receiver or operand) is a TypeError; a whole float below 10^21 is printed "
             "as plain digits. Times (Proofs.DateFilter): day number <-> civil date are inverse to each other on all integers / all valid "
-            "proleptic Gregorian dates, with month, day, clock and weekday fields in range; date never panics and Strftime never errs; "
+            "proleptic Gregorian dates, with month, day, clock, weekday, day-of-year and ISO-week fields in range; date never panics and Strftime never errs; "
             "t | date: f is Strftime(f, t), without an argument f is '%a, %b %d, %y'; '%Y-%m-%d' of a year 0..9999 is dddd-dd-dd spelling "
             "year, month, day, and '%Y-%m-%d %H:%M:%S' is read back by ParseDate as the instant itself and is what {{ t }} prints "
-            "before ' +0000'; '%s' is the unix time (read back by ParseInt); '%%' is '%'. An independent big.Rat oracle checks exactness, required errors and plain printing on the real code "
+            "before ' +0000', and a dddd-dd-dd string ParseDate accepts is printed back unchanged by '%Y-%m-%d'; '%j' is the day of the year, 1..366; '%s' is the unix time (read back by ParseInt); '%%' is '%'. An independent big.Rat oracle checks exactness, required errors and plain printing on the real code "
             "for all universe pairs and random pipelines; the model is compared with the real code on every case.",
     "design_ref": "DESIGN.md 6 C17",
     "note": NOTE + "Defects found and repaired: modulo by zero printed NaN (D17), divided_by rejected uint/uint64 divisors (D14), whole "
